@@ -43,6 +43,13 @@ MODEARGS = {'seq': [], 'j2': ['-j2'], 'j3': ['-j3'],
             'j2+late': ['-j2']}
 
 
+def _o_filter(case):
+    return case[0] != 'cwd' and case[4] == 0 and case[6] in ('seq', 'j2') and case[0] in ('A1B2c', 'N1B2C1')
+
+
+ENV_PASSES = [{'name': 'python -O', 'argv': ['-O'], 'env': {}, 'filter': _o_filter}]
+
+
 def cases(tier, seed):
     K = 1 if tier == 'quick' else 2
     vs = [0, 1, 2] if tier == 'quick' else [0, 1, 2, 3]
